@@ -449,7 +449,46 @@ def r11_recorded_lifecycles_are_never_unrecorded(ctx):
     ctx.ob('C03.R11', 'id2lifecycle-only-grows', not bad, bad[0].split(' at ')[1] if bad else '', 'un-recording operations on id2lifecycle: %s (%d calls on the map seen)' % (bad or 'none', n_touch))
 
 
+def r12_one_binding_per_injection_site(ctx):
+    from ..flow import rv_read_locals
+    ctx.rule('C03.R12', 'P6/P7 on the code generator: `codegen_call_block` files the variable of every dependency of a call in a map keyed by the dependency\'s TYPE and '
+             '`codegen_call` fills the parameters by type. Two injection sites of one transient type are two nodes and two variables; the second `insert` replaces '
+             'the first and both parameters receive the same instance ("instances are never shared" fails), silently. Necessary condition decided here: the value '
+             'returned by every `insert` into the binding map in the per-dependency loop is inspected (a collision is noticed: refused, or bound by position).')
+    item = PX + 'codegen_utils::codegen_call_block'
+    bodies = [b for b in ctx.fb.bodies_of_item('pavexc', item) if not b.is_promoted]
+    if not ctx.need('C03.R12', 'codegen_call_block', bodies):
+        return
+    n = 0
+    for b in bodies:
+        for bb, t in b.calls():
+            c = callee(t) or ''
+            if not c.endswith('HashMap::insert') and '::insert' not in c:
+                continue
+            if 'CanonicalType' not in ' '.join(t.get('aty', [])[:2]):
+                continue
+            # only the exact binding (keyed by the dependency's own type), not the `&T` alias of a `&mut T` one, which must not replace anything (C01.R14)
+            n += 1
+            d = t['dest']['l']
+            read = False
+            for xb, j, st in b.all_assigns():
+                if d in rv_read_locals(st['rv']):
+                    read = True
+            for xb in b.live_blocks():
+                u = b.term(xb)
+                if not u:
+                    continue
+                if u['k'] in ('call', 'tailcall') and any(op_place(a) is not None and op_place(a)['l'] == d for a in u['args']):
+                    read = True
+                if u['k'] == 'switch' and ((u.get('src') or {}).get('l') == d or (op_place(u.get('d', {})) or {}).get('l') == d):
+                    read = True
+            ctx.ob('C03.R12', 'binding-collision-noticed|codegen_call_block|#%d' % n, read, b.loc(bb, t),
+                   'the previous binding returned by `insert` is %s' % ('inspected' if read else 'dropped: two dependencies of the same type collapse into one variable'))
+    ctx.floor('C03.R12', 'inserts into the binding map keyed by type', n, 1)
+
+
 def check(ctx):
+    r12_one_binding_per_injection_site(ctx)
     r11_recorded_lifecycles_are_never_unrecorded(ctx)
     r10_canonical_keys_cover_the_whole_type(ctx)
     r1_tables(ctx)
